@@ -1147,7 +1147,7 @@ func TestC26(t *testing.T) {
 		Fixed:     fixed,
 		Quick:     500,
 		Thorough:  4000,
-		MaxRounds: 12,
+		MaxRounds: 6,
 		Extra: func() map[string]any {
 			statsMu.Lock()
 			defer statsMu.Unlock()
